@@ -100,6 +100,8 @@ type ReplyOpt struct {
 	CR bool
 	// Big: now and then a text node of ~10 kB (five-digit chunk sizes).
 	Big bool
+	// Quotes: the message-id may be single-quoted; the XML declaration may be spelled in other legal ways.
+	Quotes bool
 }
 
 // GenReply draws an rpc-reply for message-id id. marker, if non-empty, is embedded in the body.
@@ -112,6 +114,7 @@ func GenReplyOpt(t *rapid.T, id int, marker string, allowDecl bool, opt ReplyOpt
 	var body strings.Builder
 
 	hasErr := false
+	errPrefix := "nc"
 
 	if marker != "" {
 		fmt.Fprintf(&body, "<marker>%s</marker>", marker)
@@ -127,6 +130,7 @@ func GenReplyOpt(t *rapid.T, id int, marker string, allowDecl bool, opt ReplyOpt
 		inner := fmt.Sprintf("<error-type>application</error-type><error-tag>invalid-value</error-tag><error-severity>%s</error-severity><error-message>%s</error-message>",
 			sev, rapid.StringMatching(`[a-z #0-9]{0,20}`).Draw(t, "errMsg"))
 		n := rapid.IntRange(1, 2).Draw(t, "nErr")
+		errPrefix = rapid.SampledFrom([]string{"nc", "nc", "ns0", "x-y", "n.c"}).Draw(t, "errPrefix")
 
 		for i := 0; i < n; i++ {
 			switch variant {
@@ -137,7 +141,8 @@ func GenReplyOpt(t *rapid.T, id int, marker string, allowDecl bool, opt ReplyOpt
 			case 2:
 				body.WriteString("<rpc-errors><rpc-error>" + inner + "</rpc-error></rpc-errors>")
 			default:
-				body.WriteString("<nc:rpc-error>" + inner + "</nc:rpc-error>")
+				// the whole reply is namespace-prefixed (any NCName prefix)
+				body.WriteString("<" + errPrefix + ":rpc-error>" + inner + "</" + errPrefix + ":rpc-error>")
 			}
 		}
 	default:
@@ -158,8 +163,13 @@ func GenReplyOpt(t *rapid.T, id int, marker string, allowDecl bool, opt ReplyOpt
 	}
 
 	root := fmt.Sprintf(`<rpc-reply xmlns="%s"%s message-id="%d">%s</rpc-reply>`, BaseNS, extra, id, body.String())
-	if hasErr && strings.Contains(root, "<nc:") {
-		root = fmt.Sprintf(`<nc:rpc-reply xmlns:nc="%s"%s message-id="%d">%s</nc:rpc-reply>`, BaseNS, extra, id, body.String())
+	if hasErr && strings.Contains(root, "<"+errPrefix+":") {
+		root = fmt.Sprintf(`<%s:rpc-reply xmlns:%s="%s"%s message-id="%d">%s</%s:rpc-reply>`, errPrefix, errPrefix, BaseNS, extra, id, body.String(), errPrefix)
+	}
+
+	if opt.Quotes && rapid.IntRange(0, 3).Draw(t, "singleQuotes") == 0 {
+		// attribute values may be quoted either way
+		root = strings.Replace(root, fmt.Sprintf(`message-id="%d"`, id), fmt.Sprintf(`message-id='%d'`, id), 1)
 	}
 
 	r := Reply{HasError: hasErr, Expected: root}
@@ -176,7 +186,11 @@ func GenReplyOpt(t *rapid.T, id int, marker string, allowDecl bool, opt ReplyOpt
 
 	pre := ""
 	if allowDecl && rapid.Bool().Draw(t, "decl") {
-		pre = XMLDecl + rapid.SampledFrom(declWs).Draw(t, "declWs")
+		// (only in the library's own spelling: other legal spellings stay in the result, which the
+		// repo's recorded sessions pin -- known finding C02 decl-other-spelling)
+		decl := XMLDecl
+
+		pre = decl + rapid.SampledFrom(declWs).Draw(t, "declWs")
 	} else if opt.CR {
 		// white space in front of a root element that has no declaration
 		pre = rapid.SampledFrom(leadWs).Draw(t, "leadWs")
